@@ -17,7 +17,8 @@ CHECKS = {
         "of any length; the four cell formats (table leaf / interior, index leaf / interior) decode from their encodings, the cell pointer array decodes to the offsets it encodes, and a page of "
         "each of the four kinds laid out as the format says - page 1 with its 100-byte file header included - decodes to exactly its cells in pointer-array order (C14_table_leaf_cell ... C14_table_leaf_page, "
         "C14_index_leaf_page, C14_table_interior_page, C14_index_interior_page, C14_first_page_table_leaf, C14_first_page_table_interior). readVarint's loop body is translated from db/bits.go on every build (Go's wrapping uint64 arithmetic) and "
-        "proved to compute the model's read_varint on every byte string, ending within nine iterations (C14_source_varint). The local-payload arithmetic of the model is "
+        "proved to compute the model's read_varint on every byte string, ending within nine iterations (C14_source_varint); parseRecord's switch over the serial types is translated case by case (labels, bytes required, bytes consumed, value expression, the default case's length expressions) and "
+        "proved to decode every serial type from every body as the model does (C14_source_record_switch). The local-payload arithmetic of the model is "
         "tied to the source by translation as well: calculateCellInPageBytes and the three threshold expressions are translated from db/btree.go on every build (Go's truncated / and %) and "
         "proved equal to the model's for every page size >= 12, payload length and threshold (C14_source_arithmetic). The model is run against the real decoders (function level, exhaustive on small spaces) and against SQLite-written files at every "
         "spill threshold on every run.",
